@@ -10,6 +10,7 @@ import (
 	"runtime/debug"
 	"strings"
 	"sync"
+	"testing/synctest"
 	"time"
 
 	"github.com/pegnet/pegnetd/config"
@@ -150,6 +151,8 @@ type Replica struct {
 	// simulated-disk seam (package simvfs): when UseVFS is set before Start the
 	// daemon's database files go through the shim VFS and VFS is called before
 	// every file operation (index BlockVfsOp within the current block attempt)
+	// Cursors tracks result sets handed to API handlers (see Cursors).
+	Cursors    *Cursors
 	UseVFS     bool
 	VFS        func(op *simvfs.Op) (rc int, partial int)
 	BlockVfsOp int
@@ -263,12 +266,32 @@ func (r *Replica) Start() error {
 }
 
 func (r *Replica) open(dsn string) *sql.DB {
-	hooks := &SQLHooks{Before: r.before, After: r.after}
+	// events of a connection that belongs to an earlier lifetime (the rollback
+	// database/sql issues for an abandoned transaction once that lifetime's
+	// context is cancelled runs on its own goroutine, at a moment the
+	// simulation does not decide) must not touch the bookkeeping of this one
+	life := r.Lifetimes
+	hooks := &SQLHooks{
+		Before: func(ev *SQLEvent) error {
+			if life != r.Lifetimes {
+				return nil
+			}
+			return r.before(ev)
+		},
+		After: func(ev *SQLEvent, err error) {
+			if life != r.Lifetimes {
+				return
+			}
+			r.after(ev, err)
+		},
+	}
 	if r.UseVFS {
 		simvfs.Handle(r.Dir, r.vfsOp)
 		return OpenDBVFS(dsn, hooks, r.W.Spec.Config.CachePages)
 	}
-	return OpenDB(dsn, hooks, r.W.Spec.Config.CachePages)
+	db, cur := OpenDBCursors(dsn, hooks, r.W.Spec.Config.CachePages)
+	r.Cursors = cur
+	return db
 }
 
 // vfsOp is the replica's handler on the simulated-disk seam.
@@ -423,6 +446,13 @@ func (r *Replica) Stop() {
 		case <-Abort:
 			done = true
 		}
+	}
+	// A daemon that gave up (log.Fatal) leaves its block transaction open;
+	// cancelling the context makes database/sql roll it back on a goroutine of
+	// its own. Wait until that has happened (everything in the bubble blocked)
+	// so that the next lifetime never races with it for the file lock.
+	if r.Sched == nil {
+		synctest.Wait()
 	}
 	r.Node.Pegnet.DB.Close()
 	if r.ro != nil {
